@@ -4,17 +4,8 @@ From SV Require Import Model.Base Model.Hotspot Spec.C05hSpec.
 From Coq Require Import ZifyBool ZifyN ZifyNat.
 Open Scope N_scope.
 
-Lemma thr_of_pos r v : thresholds_pos r = true -> 1 <= thr_of r v.
-Proof.
-  unfold thresholds_pos, thr_of. intros H. apply andb_prop in H. destruct H as [H1 H2].
-  rewrite forallb_forall in H2.
-  induction (h_spec r) as [|[a b] tl IH]; simpl; [lia|].
-  destruct (a =? v) eqn:E.
-  - specialize (H2 (a, b) (or_introl eq_refl)). simpl in H2. lia.
-  - apply IH. intros x Hx. apply H2. right; auto.
-Qed.
-
-(** the concurrency counter of the rule's controller counts the open entries per value *)
+(** the concurrency counter of the rule's controller counts the open entries per value;
+    an absent counter stands for 0 *)
 Definition conc_inv (c : hctl) (open : list (N * hentry)) : Prop :=
   forall v, match hc_conc c v with
             | None => count_open (hc_rule c) v open = 0
@@ -83,18 +74,18 @@ Proof. unfold fset. rewrite N.eqb_refl. reflexivity. Qed.
 Lemma fset_other (m : fmap) k x k' : k' <> k -> fset m k x k' = m k'.
 Proof. intros H. unfold fset. destruct (k' =? k) eqn:E; [apply N.eqb_eq in E; contradiction|reflexivity]. Qed.
 
-(** a build with value [v] below the bound passes and the counter of [v] goes up *)
+(** a build with value [v] below the bound passes and the counter of [v] goes up
+    (an absent counter is first created at 0) *)
 Lemma step_build_pass r c now open id args att n v :
   h_kind r = HConc -> cinv r c open ->
   extract r args att = Some v ->
-  (1 <= thr_of r v) ->
   count_open r v open + 1 <=? thr_of r v = true ->
   exists c',
     hexec (mkHW now [c] open) (HB id args att n) =
       (mkHW now [c'] ((id, mkHE args att) :: open), HOAdmit now) /\
     cinv r c' ((id, mkHE args att) :: open).
 Proof.
-  intros Hk [Hr Hinv] Ex Hp Et.
+  intros Hk [Hr Hinv] Ex Et.
   pose proof (Hinv v) as Hv. rewrite Hr in Hv.
   unfold hexec. cbn [hw_ctls hw_now hw_open hslot]. rewrite Hr, Ex.
   unfold perform. rewrite Hr, Hk. unfold conc_check. rewrite Hr.
@@ -104,7 +95,8 @@ Proof.
     apply fset_inv_up with (v := v); auto.
     + intros v' Hne. apply fset_other; exact Hne.
     + apply fset_same.
-  - cbn [map]. unfold conc_adjust. cbn [hc_rule hc_conc hc_time hc_tok]. rewrite Hk, Ex.
+  - rewrite Hv, N.add_0_l in Et. rewrite Et.
+    cbn [map]. unfold conc_adjust. cbn [hc_rule hc_conc hc_time hc_tok]. rewrite Hk, Ex.
     rewrite fset_same.
     eexists. split; [reflexivity|].
     apply fset_inv_up with (v := v); auto.
@@ -112,22 +104,30 @@ Proof.
     + rewrite fset_same, Hv. reflexivity.
 Qed.
 
-(** a build with value [v] at the bound is rejected with snapshot k + 1; nothing changes *)
+(** a build with value [v] at the bound is rejected with snapshot k + 1; the open list is
+    unchanged (an absent counter is created at 0, which keeps the invariant) *)
 Lemma step_build_block r c now open id args att n v :
   h_kind r = HConc -> cinv r c open ->
   extract r args att = Some v ->
-  (1 <= thr_of r v) ->
   count_open r v open + 1 <=? thr_of r v = false ->
-  hexec (mkHW now [c] open) (HB id args att n) =
-    (mkHW now [c] open, HOBlock (h_id r) (count_open r v open + 1) now).
+  exists c',
+    hexec (mkHW now [c] open) (HB id args att n) =
+      (mkHW now [c'] open, HOBlock (h_id r) (count_open r v open + 1) now) /\
+    cinv r c' open.
 Proof.
-  intros Hk [Hr Hinv] Ex Hp Et.
+  intros Hk [Hr Hinv] Ex Et.
   pose proof (Hinv v) as Hv. rewrite Hr in Hv.
   unfold hexec. cbn [hw_ctls hw_now hw_open hslot]. rewrite Hr, Ex.
   unfold perform. rewrite Hr, Hk. unfold conc_check. rewrite Hr.
   destruct (hc_conc c v) as [k|] eqn:Ec.
-  - subst k. rewrite Et. reflexivity.
-  - exfalso. lia.
+  - subst k. rewrite Et. exists c. split; [reflexivity|]. split; assumption.
+  - rewrite Hv, N.add_0_l in Et. rewrite Hv, N.add_0_l. rewrite Et. cbn [hc_rule].
+    eexists. split; [reflexivity|].
+    split; [reflexivity|]. intros v'. cbn [hc_conc hc_rule].
+    destruct (v' =? v) eqn:E.
+    + apply N.eqb_eq in E. subst v'. rewrite fset_same. lia.
+    + assert (Hne : v' <> v) by (intros ->; rewrite N.eqb_refl in E; discriminate).
+      rewrite fset_other by exact Hne. specialize (Hinv v'). rewrite Hr in Hinv. exact Hinv.
 Qed.
 
 (** completion of an open entry: the counter of its value goes down *)
@@ -168,20 +168,19 @@ Lemma step_exit_none c now open id :
 Proof. intros Ef. unfold hexec. cbn [hw_open]. rewrite Ef. reflexivity. Qed.
 
 (** ** The main theorem, for any world with the single controller in its invariant *)
-Theorem c05h_holds r : h_kind r = HConc -> thresholds_pos r = true ->
+Theorem c05h_holds r : h_kind r = HConc ->
   forall ops now c open, cinv r c open ->
   ok_c05h r open ops (hrun (mkHW now [c] open) ops) = true.
 Proof.
-  intros Hk Hpos. induction ops as [|x tl IH]; intros now c open Hc; [reflexivity|].
+  intros Hk. induction ops as [|x tl IH]; intros now c open Hc; [reflexivity|].
   destruct x as [id args att n|id|dt]; cbn [hrun].
   - (* build *)
     destruct (extract r args att) as [v|] eqn:Ex.
-    + pose proof (thr_of_pos r v Hpos) as Hp.
-      destruct (count_open r v open + 1 <=? thr_of r v) eqn:Et.
-      * destruct (step_build_pass r c now open id args att n v Hk Hc Ex Hp Et) as (c' & He & Hc').
+    + destruct (count_open r v open + 1 <=? thr_of r v) eqn:Et.
+      * destruct (step_build_pass r c now open id args att n v Hk Hc Ex Et) as (c' & He & Hc').
         rewrite He. cbn [ok_c05h]. rewrite Ex, Et. cbn [andb]. apply IH. exact Hc'.
-      * rewrite (step_build_block r c now open id args att n v Hk Hc Ex Hp Et).
-        cbn [ok_c05h]. rewrite Ex, Et, !N.eqb_refl. cbn [andb negb]. apply IH. exact Hc.
+      * destruct (step_build_block r c now open id args att n v Hk Hc Ex Et) as (c' & He & Hc').
+        rewrite He. cbn [ok_c05h]. rewrite Ex, Et, !N.eqb_refl. cbn [andb negb]. apply IH. exact Hc'.
     + destruct (step_build_none r c now open id args att n Hk Hc Ex) as (He & Hc').
       rewrite He. cbn [ok_c05h]. rewrite Ex. apply IH. exact Hc'.
   - (* exit *)
@@ -197,9 +196,9 @@ Lemma cinv_init r : cinv r (hctl0 r) [].
 Proof. split; [reflexivity|]. intros v. reflexivity. Qed.
 
 Theorem c05h_holds_init : forall r base ops,
-  h_kind r = HConc -> thresholds_pos r = true ->
+  h_kind r = HConc ->
   ok_c05h r [] ops (hrun (mkHW base [hctl0 r] []) ops) = true.
-Proof. intros r base ops Hk Hpos. apply c05h_holds; auto using cinv_init. Qed.
+Proof. intros r base ops Hk. apply c05h_holds; auto using cinv_init. Qed.
 
 (** ** Corollary: the per-value cap *)
 
@@ -245,10 +244,10 @@ Proof.
 Qed.
 
 Theorem c05h_cap : forall r base ops v,
-  h_kind r = HConc -> thresholds_pos r = true ->
+  h_kind r = HConc ->
   count_open r v (open_after [] ops (hrun (mkHW base [hctl0 r] []) ops)) <= thr_of r v.
 Proof.
-  intros r base ops v Hk Hpos.
-  apply (ok_c05h_cap r ops _ [] (c05h_holds_init r base ops Hk Hpos)).
+  intros r base ops v Hk.
+  apply (ok_c05h_cap r ops _ [] (c05h_holds_init r base ops Hk)).
   intros v'. unfold count_open. cbn [filter length]. lia.
 Qed.
